@@ -39,7 +39,7 @@ let string_of_n (x : n) : Stdlib.String.t =
 let byte_table : n array = Stdlib.Array.init 256 (fun i -> n_of_int64 (Int64.of_int i))
 
 let n_of_decimal (s : Stdlib.String.t) : n =
-  if Stdlib.String.length s <= 19 then n_of_int64 (Int64.of_string s)
+  if Stdlib.String.length s <= 18 then n_of_int64 (Int64.of_string s)
   else
     try n_of_int64 (Int64.of_string ("0u" ^ s))
     with _ ->
